@@ -11,7 +11,7 @@ from vf.modelfs import FILE, ModelFS
 from vf.stubs import drive
 
 CAP = "/srv/cap"
-FILES = {"/pub/p": b"PUB-p", "/sec/s": b"SEC-s", "/sec/pub/q": b"SECPUB-q", "/sec/index.gmi": b"SEC-index",
+FILES = {"/pub/p": b"PUB-p", "/sec/s": b"SEC-s", "/sec/pub/q": b"SECPUB-q", "/sec/index.gmi": b"SEC-index", "/sec/pub/index.gmi": b"SECPUB-index",
          "/index.gmi": b"ROOT-index", "/secret.gmi": b"SECRET-GMI"}
 BY_CONTENT = {v: k for k, v in FILES.items()}
 PFX = ["/", "/sec", "/sec/", "/sec/pub/", "/pub/"]
@@ -153,7 +153,7 @@ def spelling3_c(rp: int, s1: int, s2: int, s3: int) -> bool:
     return V(_spelling(rp, s1, s2, s3, 3, False, False))
 
 
-TARGETS = [("pub", "p", 2), ("sec", "s", 2), ("sec", "pub", 3), ("sec", "", 2), ("sec", "", 1), ("", "", 1), ("secret.gmi", "", 1)]
+TARGETS = [("pub", "p", 2), ("sec", "s", 2), ("sec", "pub", 3), ("sec", "", 2), ("sec", "", 1), ("sec", "pub", 2), ("", "", 1), ("secret.gmi", "", 1)]
 
 
 def admit(rp: int, rq: bool, ra: int, fpi: int, ti: int, slash: bool) -> bool:
@@ -168,16 +168,31 @@ def admit(rp: int, rq: bool, ra: int, fpi: int, ti: int, slash: bool) -> bool:
     return V(_enforce(1, rp, rq, ra, 0, False, 0, s1, s2, s3, n, slash, False, fpi))
 
 
-def nested(r1p: int, r2p: int, r1q: bool, r2q: bool, r1a: int, r2a: int, ti: int, fpi: int) -> bool:
-    """
-    pre: 1 <= r1p < 5 and 1 <= r2p < 5 and r1p != r2p
-    pre: 0 <= r1a < 4 and 0 <= r2a < 4 and 0 <= fpi < 3 and 0 <= ti < 4
-    pre: r1a != 3 and (r2a == 0 or r2a == 2) and (r2q or FULL)
-    post: _
-    """
+def _nested(r1p, r2p, r1q, r2q, r1a, r2a, ti, fpi):
+    # (contract on the partitioned wrappers)
     # two rules (public-inside-protected, overlapping prefixes): first match wins
     a, b, n = TARGETS[ti]
     return V(_enforce(2, r1p, r1q, r1a, r2p, r2q, r2a, SEG.index(a), SEG.index(b), SEG.index("q"), n, False, False, fpi))
+
+
+def nested_a(r1p: int, r2p: int, r1q: bool, r2q: bool, r1a: int, r2a: int, ti: int, fpi: int) -> bool:
+    """
+    pre: 1 <= r1p <= 2 and 0 <= r2p < 5 and r1p != r2p
+    pre: 0 <= r1a < 4 and 0 <= r2a < 4 and 0 <= fpi < 3 and 0 <= ti < 6
+    pre: r1a != 3 and (r2a == 0 or r2a == 2) and (r2q or FULL)
+    post: _
+    """
+    return _nested(r1p, r2p, r1q, r2q, r1a, r2a, ti, fpi)
+
+
+def nested_b(r1p: int, r2p: int, r1q: bool, r2q: bool, r1a: int, r2a: int, ti: int, fpi: int) -> bool:
+    """
+    pre: 3 <= r1p <= 4 and 0 <= r2p < 5 and r1p != r2p
+    pre: 0 <= r1a < 4 and 0 <= r2a < 4 and 0 <= fpi < 3 and 0 <= ti < 6
+    pre: r1a != 3 and (r2a == 0 or r2a == 2) and (r2q or FULL)
+    post: _
+    """
+    return _nested(r1p, r2p, r1q, r2q, r1a, r2a, ti, fpi)
 
 
 FPLISTS = ["missing", [], ["sha256:" + "a" * 64], ["sha256:" + "a" * 64, "sha256:" + "b" * 64]]
@@ -266,10 +281,13 @@ OBLIGATIONS = [
        symbolic="never-admitting rule on 4 prefixes; 3 path segments, first in {'', %2e%2e, '.', %73ec, ...}", functions=FN, stubs=["ModelFS"]),
     Ob("admit", admit, quick=800, thorough=2400,
        symbolic="rule prefix (5), require_cert, allow-list (absent / empty / {A} / {B}), presented fingerprint (none / A / B), "
-                "7 canonical targets (files, directory with/without slash, root, prefix-sharing file), trailing slash",
+                "8 canonical targets (files, directories with/without slash, root, prefix-sharing file), trailing slash",
        functions=FN, stubs=["ModelFS"]),
-    Ob("nested", nested, quick=800, thorough=2400,
-       symbolic="2 rules with distinct prefixes (nested / overlapping), admission switches of both, 4 canonical targets, fingerprint",
+    Ob("nested_a", nested_a, quick=800, thorough=2400,
+       symbolic="2 rules (first prefix /sec or /sec/) with distinct prefixes (nested / overlapping), incl. a catch-all '/' after a stricter rule; admission switches of both, 6 canonical targets incl. directories requested without trailing slash, fingerprint",
+       functions=FN, stubs=["ModelFS"]),
+    Ob("nested_b", nested_b, quick=800, thorough=2400,
+       symbolic="2 rules (first prefix /sec/pub/ or /pub/) with distinct prefixes (nested / overlapping), incl. a catch-all '/' after a stricter rule; admission switches of both, 6 canonical targets incl. directories requested without trailing slash, fingerprint",
        functions=FN, stubs=["ModelFS"]),
     Ob("config", config, quick=300, thorough=900,
        symbolic="0..2 TOML-shaped rule dicts: prefix, require_cert (missing/true/false), allowed_fingerprints (missing/[]/[A]/[A,B])",
